@@ -25,7 +25,8 @@ def aj_to_text(v):
 
 BAD = {"empty": "", "truncated": '{"a":[1,2', "garbage": '{"a":1} x', "notjson": "nonsense",
        "deep100k": "[" * 60000 + "]" * 60000, "deepobj100k": '{"a":' * 20000 + "1" + "}" * 20000,
-       "nest126": '{"!":' * 126 + "true" + "}" * 126}
+       "nest126": '{"!":' * 126 + "true" + "}" * 126,
+       "ffpad": '\x0c{"==":[1,1]}', "nbsppad": "null\xa0", "nelpad": "\x851", "lspad": "[1]\u2028", "twodocs": "1\n2"}
 
 def strict_eq(a, b):
     """equal values AND equal types all the way down (1 vs 1.0 differ)"""
